@@ -289,7 +289,8 @@ class Check:
     def run(self, tier, seed, rec):
         harness.boot()
         items = []
-        plan = [(2, 2, True), (3, 2, True)] + ([] if tier == "quick" else [(4, 2, False), (4, 1, True), (5, 1, False)])
+        plan = ([(2, 2, True), (3, 1, True), (3, 2, False)] if tier == "quick" else
+                [(2, 2, True), (3, 2, True), (4, 2, False), (4, 1, True), (5, 1, False)])
         for n, k, run_all in plan:
             gs = harness.seeded_order(list(G.all_graphs(n, k)), seed)
             for ch in harness.chunks(gs, max(1, len(gs) // 48 + 1)):
